@@ -144,6 +144,47 @@ def macro_rule(chk, lib, fn, s):
             return
 
 
+# the only operations that *originate* a bound (everything else hands on the bound of the view it works on)
+VIEW_ORIGINS = {"sbepp::make_view": "end = ptr + size, the size the caller states",
+                "sbepp::make_const_view": "end = ptr + size, the size the caller states"}
+
+
+def derive_rule(chk, lib, fn, s):
+    """R-CHK.derive: a view or iterator an operation hands out must carry the end pointer of the view it was derived
+    from (this / a view parameter / the view a getter returns).  A bound recomputed from the derived object's own
+    size (`begin + N`) passes every later SBEPP_SIZE_CHECK exactly when the object lies beyond the real end of the
+    buffer - the handler is never invoked for it."""
+    n = 0
+    name = rint.fn_name(fn)
+    for p in s.live:
+        r = p.ret
+        if not isinstance(r, Obj) or "end" not in r.fields:
+            continue
+        e = r.fields["end"]
+        b = r.fields.get("begin", r.fields.get("ptr"))
+        if not isinstance(e, Lin) or not isinstance(b, Lin):
+            continue
+        if not has_view_sym(b):
+            continue                    # not located in a buffer the operation was given (constant arrays of generated code)
+        n += 1
+        key = "%s|derive" % name
+        inherited = [a for a in e.atoms() if a[0] == "sym" and (a[1].endswith(".end") or ".end@" in a[1] or ".end_ptr" in a[1])]
+        if inherited and len(e.terms) == 1 and e.k == 0:
+            chk.ok("R-CHK.derive", key + "|" + show(e)[:40], {"function": fn["qn"][:140], "end": show(e)}, nontrivial=True)
+        elif name in VIEW_ORIGINS:
+            chk.ok("R-CHK.derive", key + "|origin", {"function": fn["qn"][:140], "end": show(e), "origin": VIEW_ORIGINS[name]})
+        elif not inherited:
+            chk.violation("R-CHK.derive", key, where(fn),
+                          "%s [%s] hands out a view whose end is %s - computed from the derived object itself, not inherited "
+                          "from the view it was obtained from: when the buffer ends before it, size checks on the derived view "
+                          "compare against a bound that lies outside the buffer and never invoke the handler"
+                          % (fn["qn"][:200], lib.label, show(e)))
+        else:
+            chk.broke("R-CHK.derive: end of the view returned by %s is %s (neither inherited as is nor independent of the parent)"
+                      % (fn["qn"][:160], show(e)))
+    return n
+
+
 def ref_rule(chk, lib, fn, s):
     """R-CHK.ref: an operation that hands out a reference to an element of the buffer (operator[], front, back, *it on
     arrays) lets the caller read or write those bytes: [addr, addr + sizeof) of the returned lvalue must be covered by
@@ -191,7 +232,7 @@ def check(chk, lib, gen_root, per_shape=2, max_paths=200, skip_visit=True):
     for fn in lib.eng.fns.values():
         if is_entry(fn, gen_root):
             groups.setdefault(shape_key(fn), []).append(fn)
-    n_fn = n_acc = n_skip = 0
+    n_fn = n_acc = n_skip = n_der = 0
     for sk, fns in sorted(groups.items(), key=lambda x: repr(x[0])):
         fns = sorted(fns, key=lambda f: f["qn"])[:per_shape]
         for fn in fns:
@@ -214,6 +255,7 @@ def check(chk, lib, gen_root, per_shape=2, max_paths=200, skip_visit=True):
             macro_rule(chk, lib, fn, s)
             n_step += step_rule(chk, lib, fn, s, classes_with_end)
             n_acc += ref_rule(chk, lib, fn, s)
+            n_der += derive_rule(chk, lib, fn, s)
             af = arg_facts(fn)
             for p in s.paths:
                 p._arg_facts = af
@@ -232,4 +274,5 @@ def check(chk, lib, gen_root, per_shape=2, max_paths=200, skip_visit=True):
                                       "%s of [%s, +%s) in %s [%s] is not covered by a dominating size check/assertion: %s"
                                       % (e[0], show(e[1]), show(e[2]), fn["qn"][:200], lib.label, why))
     chk.extra["rchk_steps"] = chk.extra.get("rchk_steps", 0) + n_step
+    chk.extra["rchk_derived_views"] = chk.extra.get("rchk_derived_views", 0) + n_der
     return n_fn, n_acc, n_skip
